@@ -508,6 +508,12 @@ class EigenDomain(Domain):
             return None
         a, b = vals
         op = node.ops[0]
+        if isinstance(a, tuple) and a and a[0] == "c" and not (isinstance(b, tuple) and b and b[0] == "c"):
+            # constant written on the left: turn the comparison round
+            flip = {ast.Lt: ast.Gt, ast.LtE: ast.GtE, ast.Gt: ast.Lt, ast.GtE: ast.LtE, ast.Eq: ast.Eq, ast.NotEq: ast.NotEq}.get(type(op))
+            if flip is None:
+                return None
+            a, b, op = b, a, flip()
         if isinstance(op, ast.Eq) and a == ("sign", "SUM") and b == ("c", 0):
             return ("iszero", a)
         if not (isinstance(b, tuple) and b and b[0] == "c"):
